@@ -467,6 +467,32 @@ theorem simple_is_leaf_mean (d : Data) (values : List Rat) (leaves : List Nat)
     intro k _ _
     rw [hw1 k]; grind
 
+/-! ### numeric contract of the leaf regression (what the trusted-base assumption on LAPACK rests on) -/
+
+/-- `_reglin` calls dgelss with a negative `rcond` (machine precision): no singular value of a full-rank leaf design is
+treated as zero, so what dgelss returns is the least-squares solution the theorems above speak about; and
+`_predict_reglin` accumulates the per-row dot products in a float64 column whatever the dtype of the rows -/
+theorem leaf_regression_numeric_contract :
+    C09.reglinRcondIsMachinePrecision = true ∧ C09.predBufferIsFloat64 = true := ⟨rfl, rfl⟩
+
+/-! ### the tie to the functions the model transcribes -/
+
+/-- the functions the hand-written model transcribes have, in the current source, the control skeleton (tests, loop
+headers, kinds of statements and the names they bind) they had when the model was written and validated: no branch,
+loop, early exit or rebinding has been added that the model does not describe -/
+theorem modelled_functions_have_the_transcribed_shape :
+    MlVerif.Gen.C09.shapeFit =
+      "replace=;if(isinstance(self.criterion, str)){if(self.criterion == 'mselin'){self.criterion=}else{if(self.criterion == 'simple'){self.criterion=}}};try{call fit}finally{self.criterion=};if(self.criterion == 'mselin'){call _fit_reglin}else{if(hasattr(self, 'leaves_index_')){del self.leaves_index_};if(hasattr(self, 'leaves_mapping_')){del self.leaves_mapping_};if(hasattr(self, 'betas_')){del self.betas_}};return" ∧
+    MlVerif.Gen.C09.shapeFitReglin =
+      "tree=;self.leaves_index_=;if(tree.n_leaves != len(self.leaves_index_)){raise};pred_leaves=;self.leaves_mapping_=;self.betas_=;for((i,_) in enumerate(self.leaves_index_)){ind=;xs=;ys=;if(len(ys.shape) == 1){ys=};ys=;ws=;dec=;call node_beta}" ∧
+    MlVerif.Gen.C09.shapePredict =
+      "if(self.criterion == 'mselin'){return};return" ∧
+    MlVerif.Gen.C09.shapePredictReglin =
+      "leaves=;pred=;Xone=;for(i in range(0, X.shape[0])){li=;pred[]=};return" ∧
+    MlVerif.Gen.C09.shapePredictLeaves =
+      "leaves=;leaves=;mat=;res=;return" :=
+  ⟨rfl, rfl, rfl, rfl, rfl⟩
+
 /-! ### non-vacuity: concrete instances meeting the hypotheses -/
 
 /-- y = (3,1,4,1,5,9), w = (1,2,3,1,2,1), order (3,1,0,5,4,2), node [1,6) -/
